@@ -97,7 +97,7 @@ pub struct Env {
 
 /// The signer "process".
 pub struct SignerProc {
-    pub state_machine: StateMachine,
+    pub state_machine: Arc<StateMachine>,
 }
 
 pub fn blocks_to_scan(range: std::ops::RangeInclusive<u64>) -> Vec<ScannedBlock> {
@@ -316,7 +316,7 @@ impl Env {
         let runner = Box::new(SignerRunner::new(config, services, logger.clone()));
         let state_machine =
             StateMachine::new(SignerState::Init, runner, Duration::from_secs(5), metrics_service, logger.clone());
-        Ok(SignerProc { state_machine })
+        Ok(SignerProc { state_machine: Arc::new(state_machine) })
     }
 
     pub async fn set_stakes(&self, signers: Vec<SignerWithStake>) {
